@@ -242,6 +242,9 @@ func writeListOrArray(e *Encoder, d *decodeState, ifWriteTag bool, tagName strin
 				panic(phasePanicMsg)
 			}
 			d.scanWhile(scanSkipSpace)
+			if d.opcode != scanBeginLiteral {
+				return TagList, d.error("different TagType in List")
+			}
 			start = d.readIndex()
 			if d.scanWhile(scanContinue); d.opcode == scanError {
 				return tagType, d.error(d.scan.errContext)
